@@ -23,6 +23,16 @@ def correct(value, ty):
     return value - base if signed and value.bit_length() == bits else value
 
 
+def irem(a, b):
+    """Remainder of a division which truncates toward zero.
+
+    This is what the '%' operation does at run time: the result has the
+    sign of a. Python's '%' operator takes the sign of b instead.
+    """
+    value = abs(a) % abs(b)
+    return -value if a < 0 else value
+
+
 def enhance(f):
     """Create a new enhanced method that corrects for the given type"""
     return lambda ty, a, b: correct(f(a, b), ty)
@@ -37,7 +47,7 @@ class ConstantFolder(BlockPass):
             "+": enhance(operator.add),
             "-": enhance(operator.sub),
             "*": enhance(operator.mul),
-            "%": enhance(operator.mod),
+            "%": enhance(irem),
             "<<": enhance(operator.lshift),
             ">>": enhance(operator.rshift),
         }
@@ -103,7 +113,8 @@ class ConstantFolder(BlockPass):
                     a = self.eval_const(instruction.a.b)
                     b = self.eval_const(instruction.b)
                     assert a.ty is b.ty
-                    cn = ir.Const(a.value + b.value, "new_fold", a.ty)
+                    value = correct(a.value + b.value, a.ty)
+                    cn = ir.Const(value, "new_fold", a.ty)
                     block.insert_instruction(
                         cn, before_instruction=instruction
                     )
@@ -124,7 +135,8 @@ class ConstantFolder(BlockPass):
                     a = self.eval_const(instruction.a.b)
                     b = self.eval_const(instruction.b)
                     assert a.ty is b.ty
-                    cn = ir.Const(a.value + b.value, "new_fold", a.ty)
+                    value = correct(a.value + b.value, a.ty)
+                    cn = ir.Const(value, "new_fold", a.ty)
                     block.insert_instruction(
                         cn, before_instruction=instruction
                     )
